@@ -4,6 +4,19 @@ import json, os
 V = os.path.dirname(os.path.dirname(os.path.abspath(__file__)))
 
 CLAIMED = {
+ "C01": dict(level="translation_validation", tech="static translation validation: wire layouts extracted from typed HIR of every generated reader/writer compared with wowm reference layouts; opcode table agreement; lossless-conversion taint rule",
+   text="For every version-expanded container (2,718 containers, 2,930 readers incl. the three login flavours, 2,718 writers) the sequence of transport reads/writes with its full branch structure is extracted from rustc's typed HIR and compared structurally with the layout computed from the wowm text by an independent parser; opcode enum arms, payload types and OPCODE constants are compared with the wowm opcodes. Covers every definition and every branch, not the single path of the 13% of codecs that have a captured packet.",
+   note="trusts rustc resolution, std/flate2 leaf codecs and the hand-written built-in codecs as named leaves; byte equality for concrete values follows from layout agreement and is not separately executed; three genuine defects are known findings",
+   ref="§3 C01"),
+ "C04": dict(level="other", tech="per-field structural rule on extracted read layouts (enum conversions at full wire width, exact-size guard first, rejecting opcode arm)",
+   text="Every enum-typed member of every reader (1,273 members incl. nested/conditional/array/upcast ones) must be produced by the fallible TryFrom conversion applied at its full wire width; every constant-sized message must begin with the exact-size guard for the size recomputed from wowm; every opcode reader must end in a catch-all arm that returns the offending opcode. These are the fault sites the statement enumerates, decided for all of them from the code shape.",
+   note="the TryFrom impls reached are decided by C11; trusts rustc resolution; one genuine defect (upcast truncation) was repaired by a fix: commit",
+   ref="§3 C04"),
+ "C09": dict(level="translation_validation", tech="independent interval arithmetic over wowm reference layouts vs size guards extracted from generated readers; three-way leaf-limit agreement",
+   text="The true minimum/maximum body length of every world message is recomputed from the wowm text (all branches, optionals, count ranges, leaf limits) and the guard literal(s) extracted from each generated read_inner must contain that interval up to the header capacity, with equality for constant-sized messages (also against size_without_header). Decides per container over its whole conditional structure rather than per sample length.",
+   note="leaf limits are the codec's domain definition (frozen table, cross-checked with generator and runtime constants); the sizes{} published in the IR are not inspected because producing the IR means running the generator; one genuine defect is a known finding",
+   ref="§3 C09"),
+
  "C11": dict(level="other", tech="static table agreement (typed HIR match tables vs independent wowm parser) + denotational normal forms of integer conversions",
    text="Every generated enum's from_int/as_int/variants()/variant list is extracted from rustc's typed HIR and must equal the table computed from the wowm text by an independent parser; each TryFrom<S> body is reduced to a piecewise-affine partial function on the integers and must be the value-preserving (or same-width reinterpreting) conversion. The match table is the function, so this decides the property for every integer, not a sample.",
    note="trusts rustc's name/type resolution and const evaluation, std's From/TryInto contracts, and vlib/wowm.py as the reading of the wowm language",
